@@ -67,7 +67,7 @@ class ABuf:
     def size(self):
         t = 0
         for s in self.segs:
-            if s[0] == "T":
+            if s[0] == "T" and s[3] is None:
                 raise Unsupported("length of opaque token")
             t = t + s[3]
         return t
@@ -159,7 +159,7 @@ class ABuf:
         out = []
         pos = 0
         for (k, src, off, n) in self.segs:
-            if k == "T":
+            if k == "T" and n is None:
                 raise Unsupported("slice through opaque token")
             end = pos + n
             if b is not None and tb(b <= pos):
@@ -174,6 +174,8 @@ class ABuf:
                     out.append((k, src, off, n))
                 elif k == "D":
                     raise Unsupported("partial slice of a digest")
+                elif k == "T":
+                    out.append(("T", TokPart(src, lo - pos, hi - pos), 0, hi - lo))
                 elif k == "L":
                     l_, h_ = lo - pos, hi - pos
                     if not (isinstance(l_, int) and isinstance(h_, int)):
@@ -193,7 +195,7 @@ class ABuf:
     def canon(self):
         out = []
         for (k, src, off, n) in self.segs:
-            if k != "T" and tb(n == 0):
+            if (k != "T" or n is not None) and tb(n == 0):
                 continue
             if k == "L":
                 if src.count(0) == len(src):
@@ -230,7 +232,7 @@ class ABuf:
 
     def __bool__(self):
         for s in self.segs:
-            if s[0] == "T" or tb(s[3] != 0):
+            if (s[0] == "T" and s[3] is None) or tb(s[3] != 0):
                 return True
         return False
 
@@ -284,6 +286,22 @@ class ABuf:
         if all(s[0] == "D" for s in c):
             return [s[1] for s in c]
         return None
+
+
+class TokPart:
+    """A strict part [lo, hi) of an opaque token's bytes: never equal to a whole token."""
+
+    def __init__(self, tok, lo, hi):
+        self.tok, self.lo, self.hi = tok, lo, hi
+
+    def __eq__(self, o):
+        return self is o
+
+    def __hash__(self):
+        return 29
+
+    def __repr__(self):
+        return "TokPart(%r)" % (self.tok,)
 
 
 class AView:
